@@ -5,16 +5,33 @@
    (b) creation probes: a create_minter sent to the real vending factory with everything
    valid except possibly the price / denom, against the price clause of the factory. *)
 From LP Require Export SaleCorr.
-From LP Require Import Num Pay Sg1 Bank MinterVending CreatePrice.
+From LP Require Import Num Pay Sg1 Bank MinterVending CreatePrice Params.
+(* the second case set of the harness (open-edition histories) is checked by SaleOeCorr.sale_oe_check:
+   loaded here so that building this file builds it *)
+From LP Require SaleOeCorr.
 
 Inductive c07_case :=
 | CSale (c : scase)
 | CCreate (fp : fparams) (price : N) (d : denom) (ok : bool)
-| COeCreate (min : N) (min_denom : denom) (price : N) (d : denom) (capped : bool) (ok : bool).
+| COeCreate (min : N) (min_denom : denom) (price : N) (d : denom) (capped : bool) (ok : bool)
+(* one governance proposal (sudo UpdateParams) inside a history: the minimum governance had
+   last decided according to the HARNESS'S OWN LEDGER (never read back from the factory),
+   the minimum the proposal supplies (if any), whether the factory accepted the proposal,
+   and the minimum the factory's Params query reports afterwards.  All other fields of the
+   proposals the harness sends are valid, so acceptance depends on the minimum's denom only. *)
+| CGov (ledger_before : coin) (supplied : option coin) (ok : bool) (reported_after : coin).
+
+Definition coin_eqb (a b : coin) : bool := (c_denom a =? c_denom b) && (c_amount a =? c_amount b).
 
 Definition c07_check (c : c07_case) : bool :=
   match c with
   | CSale s => sale_check s
   | CCreate fp price d ok => Bool.eqb (create_price_ok fp price d) ok
   | COeCreate m md price d capped ok => Bool.eqb (oe_create_price_ok m md price d capped) ok
+  | CGov before supplied ok after =>
+      (* Params.update_params: last supplied native minimum wins, an absent one keeps *)
+      match native_or_err supplied before with
+      | Ok c => ok && coin_eqb c after
+      | Err => negb ok && coin_eqb before after
+      end
   end.
